@@ -9,6 +9,8 @@ def run(ctx, prog, facts, tier):
     rules_c03.check_status_machine(ctx, prog, I, sqs)
     ctx.floor('C12 status modes', ctx.analysed.get('status_modes', 0), 100)
     rules_c01.check_strictness(ctx, prog, I)
+    from . import rules_local
+    rules_local.check_complete_tables(ctx, prog, I)
     # while a push is pending the rule-only list has the must-complete shape (C01.5 clause), sample of modes
     ctx.rule('C01.5', 'while a push is pending only completing steps are offered')
     for gold in (True, False):
